@@ -489,6 +489,11 @@ def build_instance_tree(
                         vmod_arg.value.modifications = [el_arg]
                         sym_mod.arguments.append(vmod_arg)
                     else:
+                        # Attribute modifiers are written in the same scope as
+                        # the element modification that contains them.
+                        for attribute_arg in el_arg.arguments:
+                            if attribute_arg.scope is None:
+                                attribute_arg.scope = arg.scope
                         sym_mod.arguments.extend(el_arg.arguments)
 
             if sym.class_modification:
@@ -537,6 +542,11 @@ def build_instance_tree(
                             vmod_arg.value.modifications = [el_arg]
                             sym_mod.arguments.append(vmod_arg)
                         else:
+                            # Attribute modifiers are written in the same scope
+                            # as the element modification that contains them.
+                            for attribute_arg in el_arg.arguments:
+                                if attribute_arg.scope is None:
+                                    attribute_arg.scope = arg.scope
                             sym_mod.arguments.extend(el_arg.arguments)
                 else:
                     arg.value.component = arg.value.component.child[0]
